@@ -808,6 +808,9 @@ def r2_named_args_and_tags(ctx, facts):
         if lit:
             return "'%s'" % lit[0]
         mem = [x.get("mname") for x in walk(a) if x["k"] == "MemberExpr" and x.get("mname") in ("first", "second")]
+        if not mem:      # for (auto const& [key, value] : *named_args)
+            bi = [re.search(r"tuple_element<(\d+)", x.get("ty") or "") for x in walk(a) if x["k"] == "DeclRefExpr" and x.get("dk") == "Binding"]
+            mem = [{"0": "first", "1": "second"}.get(m_.group(1)) for m_ in bi if m_]
         return mem[0] if len(mem) == 1 and any(var_ref(x) == na or x.get("name") in ("key", "value") for x in walk(a) if x["k"] == "DeclRefExpr") else (mem[0] if mem else "?")
     body_apps = [c for c in apps if in_subtree(c, lp.get("body"))]
     seq = [what(c) for c in body_apps]
@@ -844,6 +847,9 @@ def r2_named_args_and_tags(ctx, facts):
             # i != size - 1 | i < size - 1 | i + 1 != size | i + 1 < size
             sep_ok = has_size and ((nc is not None and nc[0] == "!=" and (minus1 != plus1)) or (cs is not None and cs[0] == "<" and (minus1 != plus1) and
                                    any(var_ref(y) == idx for y in walk(cs[1]))))
+    if lp["k"] == "CXXForRangeStmt" and not sep_ok:
+        raise AnalysisBroken("PatternFormatter::format: the ', ' between the pairs of %(named_args) is guarded by a test no accepted idiom covers "
+                             "(range-for form): not decided")
     nulls = branches_on_var_null(f, na)
     heads = g.positions(lp.get("cond")) if lp.get("cond") is not None else (g.positions(lp.get("range")) if lp.get("range") is not None else [])
     sv = [c for c in f.calls(r"PatternFormatter::_set_arg_val<") if any(is_this_field(x, buf) for x in walk(c))]
